@@ -26,7 +26,6 @@ VF_NOINLINE static void k_teardown() {}
 
 extern "C" void vf_main() {
   for (int i = 0; i < VF_N; ++i) {
-    g_prefer0[i] = vf_nondet_bool();
 #if VF_START == 2
     g_start_parking[i] = vf_nondet_bool();
 #else
@@ -34,12 +33,19 @@ extern "C" void vf_main() {
 #endif
   }
   k_build();
+  K_SPAWN_WORKERS();
+  // remaining inputs are drawn after the spawns (the native replay runtime synchronises inputs with the
+  // schedule only once threads exist); a worker that starts earlier uses `false`, one of the two values
+  for (int i = 0; i < VF_N; ++i) {
+    g_prefer0[i] = vf_nondet_bool();
+  }
+#if VF_LIVE_CENTRAL
   k_hint_store(vf_nondet_bool());
+#endif
   int32_t count = 1;
-#if VF_HIST == 3 || VF_HIST == 4
+#if (VF_HIST == 3 || VF_HIST == 4) && VF_N > 1
   count = (int32_t)vf_range_u32(1, VF_N);
 #endif
-  K_SPAWN_WORKERS();
 
   // an earlier submission by the (single) producer; its tasks may or may not have been started when
   // the shutdown begins (g_submit_done stays 0: no ledger-triggered teardown)
